@@ -419,6 +419,8 @@ def check_pairs(ctx, out, vb, rule="C06.adjacent"):
     drivers = {bi for bi, t in vb.calls() if bi in lblocks and callee_matches(t, r"Iterator>?::next$")
                and shared.iterates_blocks(render(ctx.expr(vb).operand(t["args"][0]), 3000))}
     std = CW.std_hooks()
+    from engine import listmodel as LM
+    lm = LM.hooks()
     n = 0
     import itertools
     for pat in itertools.product("SN", repeat=3):
@@ -430,6 +432,12 @@ def check_pairs(ctx, out, vb, rule="C06.adjacent"):
             d = t.get("def") or ""
             if bb in drivers:
                 return CW.adt("std::option::Option", "Some", 1, [("0", CW.TOP)])
+            # the block's content is exactly three lines: every path that goes on to the next block must have
+            # looked at all of them
+            if re.search(r"blocks::Block::content$", nm):
+                return CW.sym("CONTENT")
+            if re.search(r"<impl str>::lines$", nm) and argv and w.deref_val(env, argv[0]) == CW.sym("CONTENT"):
+                return LM.itr((CW.sym("L0"), CW.sym("L1"), CW.sym("L2")))
             if bb in keysites:
                 i = env.get(-1, CW.const(0))[1]
                 if i >= 3:
@@ -443,6 +451,7 @@ def check_pairs(ctx, out, vb, rule="C06.adjacent"):
                 ks = [v for v in vals if v[0] == "sym" and str(v[1]).startswith("K")]
                 if len(ks) == 2:
                     pairs.add((ks[0][1], ks[1][1]))
+                    env[-9] = ("tuple", env.get(-9, ("tuple", ()))[1] + (CW.const("%s,%s" % (ks[0][1], ks[1][1])),))
                 else:
                     undecided.append([v[0] for v in vals])
                 return CW.adt("std::result::Result", "Ok", 0, [("0", ("adt", "std::cmp::Ordering", "Equal", 0, ()))])
@@ -457,15 +466,23 @@ def check_pairs(ctx, out, vb, rule="C06.adjacent"):
             if re.search(r"<impl str>::is_empty$|string::String::is_empty$", nm):
                 a0 = w.deref_val(env, argv[0]) if argv else CW.TOP
                 return CW.const(1 if a0[1] == "" else 0) if CW.is_const(a0) and isinstance(a0[1], str) else None
+            r = lm(w, bb, t, argv, env)
+            if r is not None:
+                return r
             return std(w, bb, t, argv, env)
         w = CW.Walk(ctx, vb, [hook])
         first = [True]
 
-        def stop(bb, env, first=first):
+        ends = []
+
+        def stop(bb, env, first=first, ends=ends):
             if bb == h:
                 if first[0]:
                     first[0] = False
                     return False
+                # one block done, the next one is examined: what was compared on this path, and how many
+                # of the block's lines had been looked at
+                ends.append((frozenset(x[1] for x in env.get(-9, ("tuple", ()))[1]), env.get(-1, CW.const(0))[1]))
                 return True
             return False
         try:
@@ -477,8 +494,13 @@ def check_pairs(ctx, out, vb, rule="C06.adjacent"):
         keys = ["K%d" % (i + 1) for i in range(3) if pat[i] == "S"]
         want = {(keys[j], keys[j + 1]) for j in range(len(keys) - 1)}
         p = "".join(pat)
+        short = [e for e in ends if e[0] != frozenset("%s,%s" % x for x in want) or e[1] != 3]
         if undecided:
             out.viol(rule, "%s|%s|opaque" % (rule, p), ctx.where(vb), "lines %s (S: has a key, N: none): the comparator is called with arguments that are not keys of content lines (%s)" % (p, undecided[0]))
+        elif pairs == want and short:
+            out.viol(rule, "%s|%s|passed-over" % (rule, p), ctx.where(vb),
+                     "lines %s (S: has a key, N: none): on some path the block is left for the next one after %d of its lines, with the pairs %s compared instead of %s - a block can be passed over (or cut short) without its keys being compared" % (
+                         p, short[0][1], sorted(short[0][0]) or "none", sorted("%s,%s" % x for x in want) or "none"))
         elif pairs != want:
             extra = sorted(pairs - want)
             missing = sorted(want - pairs)
